@@ -236,6 +236,12 @@ def sparse_seq(rng, tier):
             if not any(M.undef[i]):
                 s = rng.below(M.fd())
                 ops.append(rng.choice([[7, i, s, rng.range(s, M.fd())], [8, i, s, rng.range(s, M.fd())]]))
+    # final read-back of every row (dense tail always; sparse part where every cell is still defined)
+    for i in range(M.h):
+        if M.nd > 0:
+            ops.append([10, i, M.fd()])
+        if M.fd() >= 1 and not any(M.undef[i]):
+            ops.append([8, i, 0, M.fd()])
     return [h, w, nd, len(ops)] + enc(ops)
 
 
